@@ -32,15 +32,32 @@ def make(backend, errordef, fixed, cost=quad):
     return m
 
 
+A0, P00 = A.copy(), P0.copy()
+
+
+def setcase(k):
+    """case 0: the fixed curvature above; case k > 0 (thorough tier): a seeded random symmetric positive-definite curvature and minimum"""
+    global A, P0
+    if not k:
+        A, P0 = A0.copy(), P00.copy()
+        return
+    rng = np.random.RandomState(1000 + k)
+    M = rng.uniform(-1, 1, (3, 3))
+    A = M @ M.T + np.diag(rng.uniform(1.0, 3.0, 3))
+    P0 = rng.uniform(-2, 2, 3)
+
+
 def gen(tier, seed):
-    for backend in ("iminuit", "scipy"):
-        for errordef in (1.0, 0.5):
-            for fixed in ([], ["a"], ["b"], ["c"], ["a", "c"], ["b", "c"]):
-                yield {"backend": backend, "errordef": errordef, "fixed": fixed}
+    for case in (range(7) if tier == "thorough" else (0,)):
+        for backend in ("iminuit", "scipy"):
+            for errordef in (1.0, 0.5):
+                for fixed in ([], ["a"], ["b"], ["c"], ["a", "c"], ["b", "c"]):
+                    yield {"backend": backend, "errordef": errordef, "fixed": fixed, "case": case}
 
 
 @R.oracle("covariance_is_twice_inverse_hessian", gen, obligation="MinimizerBase.cov_mat")
 def cov(inp):
+    setcase(inp.get("case", 0))
     m = make(inp["backend"], inp["errordef"], inp["fixed"])
     free = [i for i, n in enumerate(NAMES) if n not in inp["fixed"]]
     C = np.asarray(m.cov_mat)
@@ -72,6 +89,7 @@ def cov(inp):
 
 @R.oracle("asymmetric_errors_raise_profile_by_one", gen, obligation="_calculate_asymmetric_parameter_errors")
 def asym(inp):
+    setcase(inp.get("case", 0))
     m = make(inp["backend"], inp["errordef"], inp["fixed"])
     free = [i for i, n in enumerate(NAMES) if n not in inp["fixed"]]
     pv = np.asarray(m.parameter_values).copy()
@@ -91,12 +109,13 @@ def asym(inp):
             exp = exp * math.sqrt(inp["errordef"])        # MINOS uses errordef as its cost rise
         if not np.allclose(ae[i], exp, rtol=5e-3, atol=1e-4):
             return {"got": ae[i], "expected": exp, "witness_class": f"asymmetric!=profile-rise:{inp['backend']}" + (":fixed-others" if inp["fixed"] else "")}
-    if not np.allclose(m.parameter_values, pv, atol=1e-3) or abs(m.function_value - fmin) > 1e-6:
+    if not np.allclose(m.parameter_values, pv, atol=2e-3) or abs(m.function_value - fmin) > 1e-4:          # (re-minimisation after MINOS: within the minimizer tolerance, C08)
         return {"got": list(m.parameter_values), "expected": list(pv), "witness_class": "moved"}
 
 
 @R.oracle("profile_and_contour_levels", gen, obligation="profile")
 def prof(inp):
+    setcase(inp.get("case", 0))
     m = make(inp["backend"], inp["errordef"], inp["fixed"])
     free = [i for i, n in enumerate(NAMES) if n not in inp["fixed"]]
     if len(free) < 2:
